@@ -160,3 +160,66 @@ func H_C19_multiReal() {
 	vfNote(string(b))
 	vfAssert(string(b) == want, "Open yields the content of the first loader that has the path")
 }
+
+// H_C19_multiHistory: a stack of two in-memory loaders under histories of three steps -
+// either loader gains, changes or loses the path, the stack is cleared and rebuilt in the
+// other order - with Exists and Open asked after every step: the multi loader always
+// answers from the first loader, in the CURRENT construction order, that has the path at
+// that moment (nothing about earlier answers is remembered), and an empty stack has nothing.
+//
+//gosym:reach found,none
+func H_C19_multiHistory() {
+	a, b := jet.NewInMemLoader(), jet.NewInMemLoader()
+	m := NewLoader(a, b)
+	order := []*jet.InMemLoader{a, b}
+	content := map[*jet.InMemLoader]string{}
+	has := map[*jet.InMemLoader]bool{}
+	const p = "/page.jet"
+	for s := 0; s < 3; s++ {
+		tag := "s" + ndItoa(s)
+		switch ndChoice(tag+".op", 7) {
+		case 0:
+			a.Set(p, "A"+tag)
+			has[a], content[a] = true, "A"+tag
+		case 1:
+			b.Set(p, "B"+tag)
+			has[b], content[b] = true, "B"+tag
+		case 2:
+			a.Delete(p)
+			has[a] = false
+		case 3:
+			b.Delete(p)
+			has[b] = false
+		case 4:
+			m.ClearLoaders()
+			m.AddLoaders(b, a)
+			order = []*jet.InMemLoader{b, a}
+		case 5:
+			m.ClearLoaders()
+			order = nil
+		default: // no change: just another query
+		}
+		want, found := "", false
+		for _, l := range order {
+			if has[l] {
+				want, found = content[l], true
+				break
+			}
+		}
+		got := m.Exists(p)
+		vfAssert(got == found, "Exists is true iff a loader of the current stack has the path now")
+		f, err := m.Open(p)
+		if !found {
+			vfReach("none")
+			vfAssert(err != nil, "Open fails when no loader of the current stack has the path")
+			continue
+		}
+		vfReach("found")
+		vfAssert(err == nil, "whenever Exists(p) is true, Open(p) succeeds")
+		if err == nil {
+			bts, _ := ioutil.ReadAll(f)
+			f.Close()
+			vfAssert(string(bts) == want, "Open yields the content of the first loader, in the current order, that has the path")
+		}
+	}
+}
